@@ -4,6 +4,7 @@ import (
 	"encoding/json"
 	"flag"
 	"fmt"
+	"golang.org/x/tools/go/ssa"
 	"os"
 	"path/filepath"
 	"regexp"
@@ -46,12 +47,12 @@ type violation struct {
 }
 
 type checkResult struct {
-	obls       []*Oblig
-	extraObls  []*Oblig
-	violations []violation
-	known      []string
-	bounded    map[string]any
-	notes      []string
+	obls           []*Oblig
+	extraObls      []*Oblig
+	violations     []violation
+	known          []string
+	bounded        map[string]any
+	notes          []string
 	batterySamples []any
 	closureAdded   []string // functions encoded because they are reachable from the property's entry points
 }
@@ -117,6 +118,10 @@ func (V *Verifier) runProperty(spec *propSpec) *checkResult {
 		for _, k := range V.reachableFromUntrusted(spec.SafetyClosure...) {
 			if os.Getenv("BXV_DEBUG_CLOSURE") != "" {
 				fmt.Fprintf(os.Stderr, "closure %s have=%v con=%v asvalue=%v shape=%v\n", k, have[k], V.CS.ByKey[k] != nil, V.usedAsValue[k], V.inlinableShape(V.P.Funcs[k], k))
+			}
+			if fn := V.P.Funcs[k]; !have[k] && V.CS.ByKey[k] == nil && fn != nil && fn.Parent() != nil && literalOnlyCalledOnTheSpot(fn) && V.inlinableBody(fn, k) {
+				// a function literal that is only called where it is made: inlined there
+				continue
 			}
 			if !have[k] && V.CS.ByKey[k] == nil && !V.usedAsValue[k] && V.inlinableShape(V.P.Funcs[k], k) {
 				// no contract, only ever called directly, and of inlinable shape: its
@@ -486,4 +491,53 @@ func outBase() string {
 		return d
 	}
 	return "/verif"
+}
+
+// literalOnlyCalledOnTheSpot: every MakeClosure of fn in its parent is used
+// only as the callee of calls (never deferred, stored, passed or returned).
+func literalOnlyCalledOnTheSpot(fn *ssa.Function) bool {
+	parent := fn.Parent()
+	if parent == nil {
+		return false
+	}
+	found := false
+	for _, b := range parent.Blocks {
+		for _, in := range b.Instrs {
+			// a literal without free variables is the function itself as callee
+			if c, ok := in.(ssa.CallInstruction); ok {
+				if f, isF := c.Common().Value.(*ssa.Function); isF && f == fn {
+					if _, isCall := in.(*ssa.Call); !isCall {
+						return false
+					}
+					found = true
+				}
+				for _, a := range c.Common().Args {
+					if f, isF := a.(*ssa.Function); isF && f == fn {
+						return false
+					}
+				}
+			}
+			mc, ok := in.(*ssa.MakeClosure)
+			if !ok || mc.Fn != ssa.Value(fn) {
+				continue
+			}
+			found = true
+			refs := mc.Referrers()
+			if refs == nil {
+				return false
+			}
+			for _, r := range *refs {
+				switch r := r.(type) {
+				case *ssa.Call:
+					if r.Call.Value != ssa.Value(mc) {
+						return false
+					}
+				case *ssa.DebugRef:
+				default:
+					return false
+				}
+			}
+		}
+	}
+	return found
 }
